@@ -55,6 +55,8 @@ def main():
                 env = dict(os.environ, VERIF_REPO=wt, VERIF_SCALE=scale, VERIF_TIER=tier)
                 r = run(['python3', os.path.join(V, 'vcheck.py'), pid], env=env, cwd=V)
                 keys = re.findall(r'VIOLATION property=\S+ replay=\S+ key=(.*?) occurrences=', r.stdout)
+                if r.returncode == 1 and not keys:      # exit 1 without a VIOLATION line is not a verdict of the check
+                    r.returncode = 2
                 silent_ok = m.get('expect') == 'silent'
                 if silent_ok:
                     status = 'SILENT-AS-EXPECTED' if r.returncode == 0 else ('BUILD/INCONCLUSIVE' if r.returncode == 2 else 'UNEXPECTED-ALARM')
